@@ -291,7 +291,8 @@ def run(ctx: Ctx) -> None:
         "prefix (SufLines through quoteScan and listEnter) — fence markup+info is the tail of its opening line, hr markup is read off "
         "the tail of its line; code spans end to end for the inline sub-parser text/newline/escape/backticks (Props/C08d.lean "
         "imini_codespans: every code_inline token holds codeSpanContent of exactly the text between two backtick runs of the source "
-        "whose common length is its markup). For html_block, heading/list/quote markup and ordered-list start/info it is decided by the oracle; "
+        "whose common length is its markup); html_block content and heading markup for the sub-parser with nine of the eleven block rules "
+        "(Props/C08e.lean m_verbatim). For list/quote markup and ordered-list start/info it is decided by the oracle; "
         "the getLines, code-span and hr statements are theorems",
     ]
 
